@@ -7,6 +7,7 @@ import (
 	"sort"
 	"strings"
 	"sync"
+	"time"
 
 	"seehuhn.de/go/pdf"
 
@@ -501,7 +502,7 @@ func runCases(ctx *core.Ctx, cases []*PipeCase) ([]*PipeRec, []*streamInfo) {
 		go func(i int, c *PipeCase) {
 			defer wg.Done()
 			defer func() { <-sem }()
-			recs[i] = RunDirect(c)
+			recs[i] = runDirectWatched(c)
 		}(i, c)
 	}
 	// OpenStream cases: many streams per file, one file per version and batch
@@ -543,6 +544,24 @@ func runCases(ctx *core.Ctx, cases []*PipeCase) ([]*PipeRec, []*streamInfo) {
 		}
 	}
 	return recs, infos
+}
+
+// runDirectWatched: a codec that does not terminate must not hang the check;
+// the run is abandoned after a minute and recorded as a failed read.
+func runDirectWatched(c *PipeCase) *PipeRec {
+	done := make(chan *PipeRec, 1)
+	go func() { done <- RunDirect(c) }()
+	t := time.NewTimer(60 * time.Second)
+	defer t.Stop()
+	select {
+	case r := <-done:
+		return r
+	case <-t.C:
+		rec := newRec(c)
+		rec.Note = "read: no result within 60 s (the codec does not terminate); "
+		rec.Reads = addRun(rec.Reads, [3]int{0, 0, 2})
+		return rec
+	}
 }
 
 // chainKey summarises a chain for violation keys: kinds, predictor class,
